@@ -134,3 +134,11 @@ Proof. vm_compute. reflexivity. Qed.
 (** no review is stale *)
 Theorem reviewed_loops_exist : forallb (fun j => Nat.eqb (open_in (fst j)) (snd j)) open_loops_ok = true.
 Proof. vm_compute. reflexivity. Qed.
+
+(** loops of the tokenizer that consume input characters (ctx.get()/ctx.expect()): every one tests ctx.more(), runs on a
+    counter, or only continues on characters of a named class (peek() returns 0 at the end of the input) *)
+Definition open_char_loops : list (list Z) :=
+  map (fun l => snd (fst (fst l))) (filter (fun l => snd l =? 2) char_loops).
+
+Theorem tokenizer_loops_are_guarded : open_char_loops = [].
+Proof. vm_compute. reflexivity. Qed.
